@@ -15,6 +15,9 @@ stable regime (both also through the real SignalMultiDimGridPDFSet with Linear /
 parameter point (stale caches); the same fd oracle and a call-history oracle (several evaluations of one object inside
 one interpolation grid cell and across cells vs. fresh objects) through the real IceCube consumers
 SingleParamFluxPointLikeSourceI3DetSigYield and SplinedI3EnergySigSetOverBkgPDFRatio; get_values_mask_for_source_mask; exact-fraction quotient rule for SigOverBkgPDFRatio.
+Round 7 (harness/c02_r7_fixtures.py, Model/GradMapR7.lean): the consumers' loop / values mask / yield gradient dictionary, code-shaped,
+vs. the real SignalMultiDimGridPDFSet.get_pd, SplinedI3EnergySigSetOverBkgPDFRatio.get_gradient,
+TrialDataManager.get_values_mask_for_source_mask, SingleParamFluxPointLikeSourceI3DetSigYield.__call__ — exact / 1e-12.
 """
 import collections
 import itertools
@@ -27,10 +30,41 @@ import numpy as np
 
 from harness import extract
 from harness import grad_fixtures as gf
+from harness import c02_r7_fixtures as r7
 from harness import llh_fixtures as fx
 from harness.core import MachineryError, f2b, b2f, flist, ilist, parse_flist, parse_ilist
 
-MODEL_MODULES = ['SkyllhModel.Model.LLH', 'SkyllhModel.Model.Grad', 'SkyllhModel.Model.ParamLayout']
+MODEL_MODULES = ['SkyllhModel.Model.LLH', 'SkyllhModel.Model.Grad', 'SkyllhModel.Model.ParamLayout', 'SkyllhModel.Model.GradMapR7',
+                 'SkyllhModel.Model.GradState']
+
+# Python callables that have an executable Lean counterpart which the c02_* theorems are about AND which run(ctx) compares
+# with the real callable on every run (directly, or as a stage of the real MultiDatasetTCLLHRatio pipeline whose output is
+# compared with Grad.stacked stage by stage through J = 1 / K = 1 cases)
+MODEL_MAP = {
+    'skyllh/core/parameters.py::ParameterModelMapper.create_src_params_recarray':
+        ['ParamLayout.gpidxField', 'ParamLayout.gpTable', 'ParamLayout.localValue'],
+    'skyllh/core/parameters.py::ParameterModelMapper.map_param': ['ParamLayout.wellFormedB'],
+    'skyllh/core/parameters.py::ParameterModelMapper.n_global_floating_params': ['ParamLayout.nFloating'],
+    'skyllh/core/llhratio.py::MultiDatasetTCLLHRatio.evaluate':
+        ['Grad.stacked', 'Grad.stackedChecked', 'Grad.multiValue', 'Grad.multiGradNs', 'Grad.multiGradP', 'Grad.assemble',
+         'GradState.step'],
+    'skyllh/core/llhratio.py::MultiDatasetTCLLHRatio.calculate_ns_grad2': ['Grad.multiNsGrad2', 'GradState.grad2Loop'],
+    'skyllh/core/llhratio.py::ZeroSigH0SingleDatasetTCLLHRatio.evaluate': ['Grad.gradNs', 'Grad.gradP', 'Grad.nsGradI', 'Grad.pGradI'],
+    'skyllh/core/llhratio.py::ZeroSigH0SingleDatasetTCLLHRatio.calculate_ns_grad2': ['Grad.nsGrad2'],
+    'skyllh/core/pdfratio.py::SigOverBkgPDFRatio.get_gradient': ['Grad.sobGrad'],
+    'skyllh/core/pdfratio.py::PDFRatioProduct.get_gradient': ['Grad.productGrad', 'Grad.leafGrad'],
+    'skyllh/core/pdf.py::PDFProduct.get_pd': ['Grad.productGrad'],
+    'skyllh/core/pdfratio.py::SourceWeightedPDFRatio.get_ratio': ['Grad.wRatio'],
+    'skyllh/core/pdfratio.py::SourceWeightedPDFRatio.get_gradient': ['Grad.wRatioGradCode', 'Grad.wRatioGrad'],
+    'skyllh/core/services.py::SrcDetSigYieldWeightsService.calculate': ['Grad.aRow', 'Grad.stDaRow'],
+    'skyllh/core/services.py::DatasetSignalWeightFactorsService.calculate': ['Grad.fjRow', 'Grad.fjGradRow'],
+    # round 7 (Model/GradMapR7.lean)
+    'skyllh/core/trialdata.py::TrialDataManager.get_values_mask_for_source_mask': ['GradMap.valuesMaskCode', 'GradMap.valuesMaskSpec'],
+    'skyllh/core/signalpdf.py::SignalMultiDimGridPDFSet.get_pd': ['GradMap.sigGrads', 'GradMap.interpLoop'],
+    'skyllh/i3/pdfratio.py::SplinedI3EnergySigSetOverBkgPDFRatio.get_gradient': ['GradMap.interpLoop', 'GradMap.i3Gradient'],
+    'skyllh/i3/detsigyield.py::SingleParamFluxPointLikeSourceI3DetSigYield.__call__':
+        ['GradMap.yieldGradsCode', 'GradMap.yieldKeys', 'GradMap.yieldValues'],
+}
 
 OPA_RECORDED = 1e-3
 REL = 1e-9
@@ -52,11 +86,18 @@ def _opa(ctx=None):
 
 
 def generated(ctx):
-    return ('/- generated by harness/props/c02.py from skyllh/core/llhratio.py; do not edit -/\n'
+    (consts, fails) = r7.consumer_constants()
+    for f in fails:
+        if ctx is not None:
+            ctx.note('constant extraction failed, using the recorded value (%s)' % f)
+            ctx.proof['generated_fallbacks'].append(f)
+    return ('/- generated by harness/props/c02.py from skyllh/core/llhratio.py, skyllh/core/signalpdf.py, skyllh/i3/pdfratio.py, '
+            'skyllh/i3/detsigyield.py; do not edit -/\n'
             'namespace Gen.C02\n'
             '/-- `ZeroSigH0SingleDatasetTCLLHRatio._one_plus_alpha` -/\n'
             'def onePlusAlpha {F : Type} [OfScientific F] : F := %s\n'
-            'end Gen.C02\n') % extract.lean_float(_opa(ctx))
+            '%s'
+            'end Gen.C02\n') % (extract.lean_float(_opa(ctx)), r7.generated_text(consts))
 
 
 # --------------------------------------------------------------------------------------------------
@@ -1123,6 +1164,7 @@ def compare_layout(case, impl, lay):
 ORACLES = {'pdfprod': o_pdfprod, 'history': o_history, 'argforms': o_argforms, 'argforms_i3': o_argforms_i3, 'argforms_grid': o_argforms_grid,
            'grad2_i3': o_grad2_i3, 'grad2_grid': o_grad2_grid, 'fd': o_fd, 'fd_grid': o_fd_grid, 'fd_i3': o_fd_i3, 'seq_i3': o_seq_i3, 'seq_grid': o_seq_grid, 'grad2': o_grad2, 'reuse': o_reuse, 'layout': o_layout, 'values_mask': o_values_mask, 'sob': o_sob,
            'corr': o_corr, 'corr_layout': o_corr_layout}
+ORACLES.update(r7.ORACLES)
 
 
 def _mode(res):
@@ -1180,7 +1222,7 @@ EXPECTED_BRANCHES = (
     ['branch:sobGrad:case%d,%s' % (n, b) for n in (1, 2, 3, 4) for b in ('b>0', 'b=0')] +
     ['branch:PDFProduct.get_pd:has1=%d,has2=%d' % hh for hh in ((0, 0), (0, 1), (1, 0), (1, 1))] +
     ['branch:step:' + b for b in ('newTrial', 'evaluate', 'evaluateFail', 'grad2-ok', 'grad2-noWeights', 'grad2-notEvaluated')] +
-    ['branch:Multi.evaluate:J=%d' % j for j in (1, 2, 3)] + ['branch:groups=%d' % g for g in (1, 2)])
+    ['branch:Multi.evaluate:J=%d' % j for j in (1, 2, 3)] + ['branch:groups=%d' % g for g in (1, 2)] + list(r7.R7_BRANCHES))
 
 
 def _count_stack_branches(ctx, c, lay, opa):
@@ -1624,6 +1666,9 @@ def _run_body(ctx):
             ctx.violation('corr', c, 'model and implementation disagree (%s) but no property oracle fails on this input' % d,
                           kind='correspondence', relation='|impl-model| <= 1e-9 rel + 1e3 x sensitivity(1e-12)',
                           impl_output=impl, model_output=m1, signature='C02/corr/stack', no_failing_input=True)
+    _tick('r7')
+    # ---------------- round 7: the consumers' bookkeeping, code-shaped (Model/GradMapR7.lean) -----------
+    r7.run_section(ctx, gen_layout, gen_i3_case)
     _tick('end')
     ctx.extra['stack_disagreements'] = len(suspicious)
     ctx.extra['zero_hit_branches'] = [b for b in EXPECTED_BRANCHES if not ctx.counters.get(b)]
@@ -1685,11 +1730,18 @@ MANIFEST = dict(
           'compared with the real ParameterModelMapper (exact; all layouts with <= 4 global parameters for 1..3 sources in the thorough '
           'tier), the real MultiDatasetTCLLHRatio gradient / calculate_ns_grad2 (tolerance) and its call histories on every run; '
           'finite-difference, call-history, argument-form and fresh-vs-used oracles search the implementation incl. the real grid / i3 '
-          'consumers for failing inputs.'),
+          'consumers for failing inputs. Round 7: the consumers themselves are code-shaped in the model (Model/GradMapR7.lean: the loop '
+          'over the local interpolation parameters of SignalMultiDimGridPDFSet.get_pd / SplinedI3EnergySigSetOverBkgPDFRatio.get_gradient '
+          'with skip, early exit and masked overwrite, TrialDataManager.get_values_mask_for_source_mask, the gradient dictionary of '
+          'SingleParamFluxPointLikeSourceI3DetSigYield.__call__), compared exactly with the real callables on every run, and proved to '
+          'return, for every well-formed layout and every value, the sum rule Grad.locToFit the analytic theorems are about '
+          '(c02_consumer_loop_for_every_layout, c02_values_mask_code_eq_spec, c02_yield_grad_row, c02_yield_keys_for_every_layout); the '
+          'offsets / comparison operators of that rule are regenerated from the current source (c02_consumer_rule_for_current_source).'),
     note=('In the model/implementation comparison the spline-based leaves are represented by analytic stubs applying the same gpidx '
           'rule; the real consumers (SignalMultiDimGridPDFSet, SplinedI3EnergySigSetOverBkgPDFRatio, '
           'SingleParamFluxPointLikeSourceI3DetSigYield; Linear and Parabola interpolation) are executed under the finite-difference, '
-          'call-history and argument-form oracles only; their interpolation gradients themselves are C15. Open finding: zero-yield '
+          'call-history and argument-form oracles and, since round 7, their gpidx bookkeeping is modelled and compared exactly (the spline / '
+          'interpolation values are handed to the model as leaf inputs); their interpolation gradients themselves are C15. Open finding: zero-yield '
           'dataset with selected events and a non-zero yield gradient (c02_zero_yield_row_counterexample). The pinned gpidx rule '
           '(global index) is kept in the model with a proved counterexample; main carries the fix.'),
     design='DESIGN.md section 4 C02',
